@@ -51,6 +51,9 @@ type Exch struct {
 	// for this exchange; its record must have been dropped, so no later
 	// interleaved reply may carry this exchange.
 	NoKernelTx bool
+	// Unsync: the server reported itself unsynchronised in this reply (leap
+	// indicator 3, stratum 0); a client discards such a reply after matching it.
+	Unsync bool
 }
 
 // Reply is a reply datagram on its way to the client.
@@ -76,6 +79,8 @@ type Sim struct {
 	seen   int // datagrams of Net.Sent already looked at
 	TxTS   bool
 	RxTS   bool
+	// Unsync makes the next Serve answer as an unsynchronised server (one exchange).
+	Unsync bool
 	// Reqs is every request seen on the wire (also dropped ones).
 	Reqs []*vnet.Datagram
 	// stamps handed out per sent datagram sequence number
@@ -163,6 +168,12 @@ func (s *Sim) Serve(d *vnet.Datagram, fwd time.Duration) *Reply {
 	} else {
 		resp.OriginTime = req.TransmitTime
 		resp.TransmitTime = ntp.Time64FromTime(e.STx)
+	}
+	if s.Unsync {
+		s.Unsync = false
+		e.Unsync = true
+		resp.SetLeapIndicator(ntp.LeapIndicatorUnknown)
+		resp.Stratum = 0
 	}
 	e.Resp = resp
 	s.store = append(s.store, e)
